@@ -82,6 +82,8 @@ def hist_c15(case, go):
 
 # ------------------------------------------------------------------------------------ C14
 def cmp_c14(case, go, m, s):
+    if case.startswith("CFLD "):
+        return go == m, go == s
     if case.startswith("GFLD "):
         # model column = Scan / UnmarshalJSON as translated, specification column = the hand-written model: the real code equals both
         return go == m, go == s
@@ -89,8 +91,8 @@ def cmp_c14(case, go, m, s):
 
 
 def hist_c14(case, go):
-    if case.startswith("GFLD "):
-        return ["op:GFLD"]
+    if case.startswith(("GFLD ", "CFLD ")):
+        return ["op:" + case.split(" ")[0]]
     a = case.split(" ")
     if a[0] == "UT":
         return ["route:Message.UnmarshalText", "result:" + go.split(" | ")[0]]
@@ -222,7 +224,7 @@ def register(PROPS):
         return go == m, go == s
 
     def hist_c19_all(case, go):
-        if case.startswith(("FLD ", "UT ", "GUT ", "GFLD ", "SESS ")):
+        if case.startswith(("FLD ", "UT ", "GUT ", "GFLD ", "SESS ", "CENC ")):
             return ["op:" + " ".join(case.split(" ")[:2 if case.startswith("FLD ") else 1])]
         if case.startswith(("FINITE ", "VALID ")):
             n = sum(int(o.split(":")[2]) for o in case.split(" ")[-1].split(";") if o.startswith("N:"))
@@ -238,7 +240,7 @@ def register(PROPS):
         "compare": cmp_c19,
         "on_crash": "correspondence",
         "replay_repeats": 50,
-        "nontrivial": lambda c, g: "," in g,
+        "nontrivial": lambda c, g: "," in g or c.startswith("CENC "),
         "rule": "scripts of 2-15 ops (AppendData/AppendComment with 1-3 multi-line strings, NewID/NewType/Retry assignment, "
                 "Clone, Put of the same message 1-3 times through Finite/Valid replayers with automatic and required IDs) "
                 "on a growing family; String() of every member after every op; non-trivial = at least two members; plus Joe "
